@@ -279,6 +279,9 @@ type DecCase struct {
 	PreCert *Blob     `json:",omitempty"`
 	Chain   []Blob    `json:",omitempty"`
 	Items   []Blob    `json:",omitempty"`
+	// certlist: the list items are these SCTs (reference-encoded) instead of Items; position of the extension
+	ItemSCTs []SCTSpec `json:",omitempty"`
+	ExtPos   int       `json:",omitempty"`
 	// rawentry: pair the leaf with the extra data of the other entry type
 	CrossExtra bool   `json:",omitempty"`
 	UseRaw     bool   `json:",omitempty"` // random bytes instead of a structured base
@@ -377,7 +380,7 @@ func genMuts(t *rapid.T, parts int) []Mut {
 }
 
 func genDec(t *rapid.T) DecCase {
-	c := DecCase{Target: pickFrom(t, "target", []string{"leaf", "leaf", "rawentry", "rawentry", "rawentry", "sct", "sct", "ds", "chain", "prechain", "sctlist", "sctlist"})}
+	c := DecCase{Target: pickFrom(t, "target", []string{"leaf", "leaf", "rawentry", "rawentry", "rawentry", "sct", "sct", "ds", "chain", "prechain", "sctlist", "sctlist", "certlist", "certlist"})}
 	if pick(t, "rawbase", 12) == 11 {
 		c.Raw = rapid.SliceOfN(rapid.Byte(), 0, 60).Draw(t, "raw")
 		if c.Target == "rawentry" {
@@ -413,7 +416,17 @@ func genDec(t *rapid.T) DecCase {
 		p := genValidBlob(t, "precert", 1, true)
 		c.PreCert = &p
 		c.Chain = genValidChain(t)
-	case "sctlist":
+	case "sctlist", "certlist":
+		if c.Target == "certlist" {
+			c.ExtPos = rapid.IntRange(0, 5).Draw(t, "extpos")
+			if pick(t, "typed", 3) != 0 {
+				for i, n := 0, rapid.IntRange(1, 3).Draw(t, "nsct"); i < n; i++ {
+					c.ItemSCTs = append(c.ItemSCTs, SCTSpec{Version: genEnum8(t, "ver", 9), LogID: rapid.Uint32().Draw(t, "id"), Timestamp: genU64(t, "ts"),
+						Ext: genSmallBlob(t, "ext", 0, 12), DS: DSSpec{Hash: 4, Sig: 3, Signature: genSmallBlob(t, "sig", 0, 72)}})
+				}
+				break
+			}
+		}
 		n := rapid.IntRange(1, 4).Draw(t, "n")
 		budget := 65535
 		if k := pick(t, "list-total", 4); k >= 2 { // steer the body to the top of the legal range
@@ -533,8 +546,15 @@ func (c DecCase) build() (parts [][]byte, lens, codes [][]field, err error) {
 			return nil, nil, nil, e
 		}
 		parts, lens, codes = [][]byte{b}, [][]field{append([]field{{0, 3}}, chainLayout(3+len(pre), chain)...)}, [][]field{nil}
-	case "sctlist":
+	case "sctlist", "certlist":
 		items := blobsBytes(c.Items)
+		for _, sp := range c.ItemSCTs {
+			it, e := rfc6962.EncodeSCT(sp.ref())
+			if e != nil {
+				return nil, nil, nil, e
+			}
+			items = append(items, it)
+		}
 		b, e := rfc6962.EncodeSCTList(items)
 		if e != nil {
 			return nil, nil, nil, e
@@ -697,6 +717,11 @@ func checkDec(t *testing.T, c DecCase) (v harness.Verdict) {
 		judgePrechain(&v, parts[0])
 	case "sctlist":
 		judgeList(&v, parts[0])
+	case "certlist":
+		if len(c.ItemSCTs) > 0 {
+			v.Class("certlist:items-are-scts")
+		}
+		judgeCertList(&v, parts[0], c.ExtPos)
 	}
 	return v
 }
@@ -704,6 +729,6 @@ func checkDec(t *testing.T, c DecCase) (v harness.Verdict) {
 // Decode is the bytes-to-value half of C04.
 var Decode = harness.Define(harness.Opts{
 	Name:  "decode",
-	Rule:  "a valid encoding built by the reference encoder (leaf, leaf + extra_data, SCT, DigitallySigned, certificate chain, PrecertChainEntry, SCT list; element sizes from 0..40, the RFC boundaries up to 65536 and anything up to 70000; SCT list bodies steered to 65335..65535) or 0..60 random bytes, under 0-3 mutations: length field +-1/+-2/+3/+-256/+65536/max/0, type-code fields (version, leaf type, entry type, algorithm octets) set to {0,1,2,3,0x7f,0x80,0xff,0x100,0x7fff,0x8000,0xffff}, append, truncate, set byte, insert, delete. tls.Unmarshal / RawLogEntryFromLeaf / ExtractSCT / FromBase64String / UnmarshalJSON / ToSignedCertificateTimestamp / ToSignedTreeHead accept <=> internal/rfc6962 accepts (with nothing left over where the API promises a complete parse), with equal values and equal rest. Non-trivial: mutated, random base, or a part whose length is at a 1/2/3-byte boundary",
+	Rule:  "a valid encoding built by the reference encoder (leaf, leaf + extra_data, SCT, DigitallySigned, certificate chain, PrecertChainEntry, SCT list, SCT list embedded in the SCT-list extension of an otherwise valid generated certificate; element sizes from 0..40, the RFC boundaries up to 65536 and anything up to 70000; SCT list bodies steered to 65335..65535) or 0..60 random bytes, under 0-3 mutations: length field +-1/+-2/+3/+-256/+65536/max/0, type-code fields (version, leaf type, entry type, algorithm octets) set to {0,1,2,3,0x7f,0x80,0xff,0x100,0x7fff,0x8000,0xffff}, append, truncate, set byte, insert, delete. tls.Unmarshal / RawLogEntryFromLeaf / ExtractSCT / FromBase64String / UnmarshalJSON / ToSignedCertificateTimestamp / ToSignedTreeHead / x509.ParseCertificate (no error at all and cert.SCTList populated) / x509util.ParseSCTsFromCertificate accept <=> internal/rfc6962 accepts (with nothing left over where the API promises a complete parse), with equal values and equal rest. Non-trivial: mutated, random base, or a part whose length is at a 1/2/3-byte boundary",
 	Quick: 6000, Thorough: 40000, MaxSample: 700,
 }, genDec, checkDec)
